@@ -92,6 +92,20 @@ def w_hocur(ctx, rng, idx):
     rep, mult = int(rng.integers(1, 3)), int(rng.integers(3, 11))
     rk = m + int(rng.integers(0, 3))
     ctx.describe({'op': 'hocur', 'd': d, 'm': m, 'modes': [[type(f).__name__ for f in fl] for fl in bl], 'ranks': rk, 'repeats': rep, 'multiplier': mult})
+    if rng.random() < 0.5:  # the documented list form (one rank per bond), sometimes generous, sometimes per-bond different
+        p = len(bl)
+        rk = [1] + [m + int(rng.integers(0, 6)) for _ in range(p)] + [1]
+        mm = m + 3  # (largest snapshot count the list will serve)
+        n = [len(fl) for fl in bl]
+        for k in range(p - 1, 0, -1):  # admissible rank vectors only: r_k <= n_k * r_{k+1} (a rank request no TT can have makes the
+            rk[k] = min(rk[k], n[k] * min(rk[k + 1], mm))  # random initial column choice index out of range - not asserted)
+        ctx.describe({'op': 'hocur', 'd': d, 'm': m, 'modes': [[type(f).__name__ for f in fl] for fl in bl], 'ranks': list(rk), 'repeats': rep, 'multiplier': mult})
+        call('transform.hocur', tr.hocur, x, bl, rk, prop=P, refusals=(np.linalg.LinAlgError,), repeats=rep, multiplier=mult, progress=False)
+        # the same list object serves a second data set with more snapshots (a caller looping over data sets)
+        m2 = m + int(rng.integers(1, 4))
+        x2 = rng.uniform(-1.5, 1.5, size=(d, m2))
+        call('transform.hocur', tr.hocur, x2, bl, rk, prop=P, refusals=(np.linalg.LinAlgError,), repeats=rep, multiplier=mult, progress=False)
+        return
     call('transform.hocur', tr.hocur, x, bl, rk, prop=P, refusals=(np.linalg.LinAlgError,), repeats=rep, multiplier=mult, progress=False)
 
 
